@@ -431,7 +431,7 @@ def embed_cols(J, dsub, dall):
 
 def oracle(case):
     """the property on the REAL code only"""
-    if case.get("aux") in ("creal", "jaxop"):
+    if case.get("aux") in ("creal", "jaxop", "mlin"):
         return AUX2.oracle(case)
     if "aux" in case:
         return AUX.oracle(case)
@@ -710,7 +710,7 @@ def run(ctx):
     # anchored mechanisms outside the Lean model (Linearization.outer, einsum.py, integrate): oracle on the real code
     aux += AUX.gen(ctx.rng, ctx.n(120, 800))
     aux += AUX.gen_cmetric(ctx.rng, ctx.n(70, 600))
-    aux += AUX2.gen_creal(ctx.rng, ctx.n(70, 600)) + AUX2.gen_jaxop(ctx.rng, ctx.n(10, 60))
+    aux += AUX2.gen_creal(ctx.rng, ctx.n(70, 600)) + AUX2.gen_jaxop(ctx.rng, ctx.n(10, 60)) + AUX2.gen_mlin(ctx.rng, ctx.n(40, 400))
     for c in aux:
         ctx.stat("aux:" + c["aux"])
         ctx.case(c, nontrivial=True)
